@@ -353,6 +353,9 @@ fn gen(args: &[String]) {
         None => vec![],
     };
     let (mut specs, stats) = plans::make(&plan, seed, count, &tier, wave);
+    if let Some(dir) = arg(args, "--repo-grammars") {
+        specs.extend(repo_grammars(&dir));
+    }
     for (i, mut e) in extra.into_iter().enumerate() {
         e.id = format!("x{:04}", i);
         specs.push(e);
@@ -392,4 +395,66 @@ fn reduce(args: &[String]) {
     }
     std::fs::write(out, serde_json::to_string(&outv).unwrap()).unwrap();
     println!("{} candidates", outv.len());
+}
+
+/// the repository's own (human-written) test grammars as additional models: text -> front end -> lift.
+/// Grammars that use crate-specific @check/@extern functions or fall outside the generator's preconditions are skipped.
+fn repo_grammars(dir: &str) -> Vec<GrammarSpec> {
+    fn walk(p: &Path, out: &mut Vec<PathBuf>) {
+        if let Ok(rd) = std::fs::read_dir(p) {
+            let mut es: Vec<PathBuf> = rd.flatten().map(|e| e.path()).collect();
+            es.sort();
+            for p in es {
+                if p.is_dir() {
+                    if p.file_name().map_or(false, |n| n == "target" || n == ".git") {
+                        continue;
+                    }
+                    walk(&p, out);
+                } else if p.extension().map_or(false, |x| x == "ebnf") && p.file_name().map_or(false, |n| n != "grammar.ebnf" || p.parent().map_or(false, |d| d.ends_with("src") == false)) {
+                    out.push(p);
+                }
+            }
+        }
+    }
+    let mut files = vec![];
+    walk(Path::new(dir), &mut files);
+    let mut out = vec![];
+    for f in files {
+        let text = match std::fs::read_to_string(&f) {
+            Ok(t) => t,
+            Err(_) => continue,
+        };
+        if text.contains("@check") || text.contains("@extern") {
+            continue;
+        }
+        let parsed = match PGrammar::from_str(&text) {
+            Ok(p) => p,
+            Err(_) => continue,
+        };
+        let model = match front::c12::lift(&parsed) {
+            Ok(m) => m.normalize(),
+            Err(_) => continue,
+        };
+        // rule names W_* are reserved for the wrappers
+        if model.rules.iter().any(|r| r.name().starts_with("W_")) {
+            continue;
+        }
+        if verif_core::gen::validate(&model).is_err() {
+            continue;
+        }
+        let name = f.parent().and_then(|p| p.file_name()).map(|n| n.to_string_lossy().to_string()).unwrap_or_default();
+        let mut flags = plans::SpecFlags::default();
+        flags.sentinel_allowed = true;
+        out.push(GrammarSpec {
+            id: format!("t{:04}", out.len()),
+            group: None,
+            role: format!("repository grammar {name}"),
+            profile: "repo".into(),
+            model,
+            cfg: plans::SpecCfg::default(),
+            flags,
+            exported: vec![],
+        });
+    }
+    out
 }
